@@ -10,5 +10,6 @@ func xGo(f func())                     { vsched.Go(f) }
 func xSend[T any](ch chan T, v T)      { vsched.Send(ch, v) }
 func xRecv[T any](ch chan T) (T, bool) { return vsched.Recv(ch) }
 func xClose[T any](ch chan T)          { vsched.Close(ch) }
+func xIsClosed[T any](ch chan T) bool  { return vsched.IsClosed(ch) }
 
 const Controlled = true
